@@ -388,6 +388,19 @@ func (d *deepView) resolveConv(v ssa.Value, fr *frame) dval {
 	return r
 }
 
+// resolveAll resolves through frames, conversions and interface boxing.
+func (d *deepView) resolveAll(v ssa.Value, fr *frame) dval {
+	r := dval{v, fr}
+	for i := 0; i < 10; i++ {
+		n := d.resolve(ir.StripConv(ir.StripIface(r.v)), r.fr)
+		if n.same(r) {
+			break
+		}
+		r = n
+	}
+	return r
+}
+
 // uniqueResult: the one value fn returns at result index idx, ignoring returns
 // that yield a nil/zero constant there (the failure exits of (T, error) helpers).
 func uniqueResult(fn *ssa.Function, idx int) ssa.Value {
